@@ -6,7 +6,7 @@
 From Coq Require Import ZArith List QArith Qcanon Sorted.
 From Batchie Require Import Lib.Sexp Lib.Num Model.Metrics Model.Synergy Model.Corr
   Proofs.C20Spec Proofs.C20Base Proofs.C20Metrics Proofs.C20Synergy Proofs.C20Corr
-  Generated.SrcSynergy Proofs.C20Source Generated.SrcMetrics Proofs.C20SourceMetrics.
+  Generated.SrcSynergy Proofs.C20Source Generated.SrcMetrics Proofs.C20SourceMetrics Generated.SrcSpace Proofs.C20SourceSpace.
 Import ListNotations.
 
 (* ---- ModelEvaluation ----  e is any evaluation the constructor accepts: n = length P experiments,
@@ -244,6 +244,21 @@ Theorem C20_model_is_source_inter_chain_mse_variance : forall m P o ch nm e,
 Proof. exact src_ev_inter_chain_is_model. Qed.
 Print Assumptions C20_model_is_source_inter_chain_mse_variance.
 
+(* models/main.py combination_count and generate_full_combinatoric_space (Generated/SrcSpace.v).  The translation works on
+   mapping rows ((name, dose), id); the model on rows (key, id): [key] is any numbering of the (name, dose) pairs that is
+   injective on the pairs of the mapping's rows (the harness numbers the distinct pairs). *)
+Theorem C20_model_is_source_combination_count : forall n k : nat,
+  src_combination_count (Z.of_nat n) (Z.of_nat k) = combination_count n k.
+Proof. exact src_combination_count_is_model. Qed.
+Print Assumptions C20_model_is_source_combination_count.
+
+Theorem C20_model_is_source_generate_full_combinatoric_space : forall (key : Z * Z -> Z) (tm : tmap3),
+  (forall a b, In a (map fst tm) -> In b (map fst tm) -> key a = key b -> a = b) ->
+  forall (sm : list (Z * Z)) (arity : nat) (sample_id : Z),
+  src_generate_full_combinatoric_space tm sm arity sample_id = full_space (key_rows key tm) sm arity sample_id.
+Proof. exact src_full_space_is_model. Qed.
+Print Assumptions C20_model_is_source_generate_full_combinatoric_space.
+
 (* ---- non-vacuity: concrete instances (vm_compute) ---- *)
 Definition q (n : Z) (d : positive) : Qc := Q2Qc (n # d).
 
@@ -300,3 +315,21 @@ Proof. vm_compute. reflexivity. Qed.
 Example C20_calculate_mse_example :
   of_result of_Qc (calculate_mse [[q 1 1; q 0 1]; [q 0 1; q 1 1]] [q 1 2; q 1 1]) = SL [SZ 0; SL [SZ 1; SZ 8]].
 Proof. vm_compute. reflexivity. Qed.
+
+(* the source links are not vacuous: the translated functions compute the values of the examples above, and the key
+   hypothesis of the space link is satisfiable (names 10, 11, 13; doses 1, 2, 5; key = 100 * name + dose) *)
+Definition ex_tm : tmap3 := [((10, 1), -1); ((11, 5), 0); ((10, 2), -1); ((13, 1), 1)]%Z.
+Definition ex_key (p : Z * Z) : Z := (100 * fst p + snd p)%Z.
+Example C20_source_examples :
+  src_calculate_synergy 2 ex_s ex_t ex_o false = calculate_synergy false 2 ex_s ex_t ex_o
+  /\ src_calculate_synergy 2 ex_s ex_t ex_o true = Err E_VALUE
+  /\ src_create_single_treatment_effect_array 2 ex_s ex_t ex_o = Err E_KEY
+  /\ (forall a b, In a (map fst ex_tm) -> In b (map fst ex_tm) -> ex_key a = ex_key b -> a = b)
+  /\ key_rows ex_key ex_tm = [(1001, -1); (1105, 0); (1002, -1); (1301, 1)]%Z
+  /\ src_generate_full_combinatoric_space ex_tm [(5, 0); (6, 1)]%Z 2 1%Z
+     = Ok ([1; 1; 1; 1; 1; 1]%Z, [[-1; 0]; [-1; -1]; [-1; 1]; [0; -1]; [0; 1]; [-1; 1]]%Z).
+Proof.
+  repeat split; try (vm_compute; reflexivity).
+  intros a b Ha Hb. cbn in Ha, Hb.
+  repeat match goal with H : _ \/ _ |- _ => destruct H as [H|H] end; try contradiction; subst; vm_compute; intros E; try reflexivity; discriminate.
+Qed.
